@@ -683,18 +683,30 @@ class HistogramBase(abc.ABC):
         self._frequencies = new_frequencies
         self._errors2 = new_errors2
 
-    def _add_contents(self, frequencies: np.ndarray, errors2: np.ndarray) -> None:
+    def _add_contents(
+        self, frequencies: np.ndarray, errors2: np.ndarray, missed: ArrayLike = 0
+    ) -> None:
         """Add the contents of a batch of values.
 
         Sums that a compact integer content type cannot hold widen it
-        (as merged bins do) instead of wrapping around.
+        (as merged bins do) instead of wrapping around. `missed` is what the
+        caller is going to add to the missed counters afterwards: the type is
+        to hold those sums too (before anything is changed).
         """
         dtype = self._frequencies.dtype
         if dtype.kind in "iu" and dtype.itemsize < 8:
             new_frequencies = self._frequencies.astype(np.int64) + frequencies
             new_errors2 = self._errors2.astype(np.int64) + errors2
+            new_missed = np.nan_to_num(np.asarray(self._missed, dtype=float) + missed)
             type_info = np.iinfo(dtype)
-            if max(new_frequencies.max(initial=0), new_errors2.max(initial=0)) > type_info.max:
+            if (
+                max(
+                    new_frequencies.max(initial=0),
+                    new_errors2.max(initial=0),
+                    new_missed.max(initial=0),
+                )
+                > type_info.max
+            ):
                 self.set_dtype(np.promote_types(new_frequencies.dtype, new_errors2.dtype))
             self._frequencies = new_frequencies.astype(self.dtype)
             self._errors2 = new_errors2.astype(self.dtype)
